@@ -71,6 +71,7 @@ class Parsed:
         self.skipped = []       # entries the probe could not exercise: every operand choice gave a node that existed before the call
         self.late = []          # late re-observations (`recheck`): Call-like records with key, inst, result, obs
         self.stats = {}         # counters printed by the probe (`# stat <n> <what>`)
+        self.scale = []         # `Z scale ...` lines: {n, wrong_names, wrong_strings, not_unified, first}
         self.complete = False
 
 
@@ -124,6 +125,9 @@ def parse_probe(text):
             cur = None
         elif tag == 'G':
             P.growth.append(rest.split(' '))
+            cur = None
+        elif tag == 'Z':
+            P.scale.append(dict(x.split('=', 1) for x in rest.split(' ')[1:]))
             cur = None
         elif tag == 'E':
             P.entries.append(rest)
@@ -615,7 +619,7 @@ def _grew(a, b):
 
 # ------------------------------------------------------------------------------------------------ builder calls after creation
 
-FORM_SUFFIXES = ('#nested', '#resolved-operand', '#reserved-spelling', '#list-filled-later')
+FORM_SUFFIXES = ('#nested', '#resolved-operand', '#reserved-spelling', '#list-filled-later', '#near-equal', '#lists-filled')
 
 
 def base_key(key):
